@@ -13,7 +13,7 @@ From Coq Require Import List NArith String Bool Lia Arith.
 From V Require Import Base.Util Base.Strings Base.Result Model.Registry Model.Settings Model.Subst
   Model.TypePath Model.Derives Model.Generate Model.Emit Model.Equal Model.WellFormed Model.Shape
   Model.Program Model.ProgramSkel Model.ProgramEmit
-  Checkers.Parse Checkers.Sem Model.Unparse Corr.RunC05
+  Checkers.Parse Checkers.Sem Model.Unparse Corr.RunTG Corr.CheckTG Corr.RunC05
   Proofs.GenProofs Proofs.GenTotal Proofs.ClosedProofs Proofs.FidelityBase Proofs.FidelityGen
   Proofs.ParseTy Proofs.ParseItem Proofs.ParseMod Proofs.ParseClosed
   Proofs.SourceRoundTrip Proofs.SourceSkeleton Proofs.SourceReading Proofs.RegistryOfSound
@@ -854,4 +854,136 @@ Lemma ex8_facts :
 Proof.
   split; [vm_compute; reflexivity|]. split; [vm_compute; reflexivity|].
   eexists. eexists. split; [vm_compute; reflexivity|]. split; vm_compute; reflexivity.
+Qed.
+
+(** * 7. the checker [prop_source_roundtrip] on the model's own output *)
+Section PtyInd.
+  Variable P : pty -> Prop.
+  Hypothesis HPath : forall l segs, Forall (fun sa : string * list pty => Forall P (snd sa)) segs -> P (PPath l segs).
+  Hypothesis HTuple : forall els, Forall P els -> P (PTuple els).
+  Hypothesis HArray : forall el len, P el -> P (PArray el len).
+  Hypothesis HBad : P PBad.
+
+  Fixpoint pty_ind' (t : pty) : P t :=
+    match t with
+    | PPath l segs =>
+        HPath l segs
+          ((fix go (x : list (string * list pty)) : Forall (fun sa : string * list pty => Forall P (snd sa)) x :=
+              match x with
+              | [] => Forall_nil _
+              | sa :: x' =>
+                  Forall_cons sa
+                    ((fix go2 (p : list pty) : Forall P p :=
+                        match p with
+                        | [] => Forall_nil _
+                        | u :: p' => Forall_cons u (pty_ind' u) (go2 p')
+                        end) (snd sa)) (go x')
+              end) segs)
+    | PTuple els =>
+        HTuple els ((fix go2 (p : list pty) : Forall P p :=
+                       match p with
+                       | [] => Forall_nil _
+                       | u :: p' => Forall_cons u (pty_ind' u) (go2 p')
+                       end) els)
+    | PArray el len => HArray el len (pty_ind' el)
+    | PBad => HBad
+    end.
+End PtyInd.
+
+Lemma pty_list_eqb_refl l :
+  Forall (fun t => pty_eqb t t = true) l ->
+  (fix go2 (p q : list pty) : bool :=
+     match p, q with
+     | [], [] => true
+     | t :: p', u :: q' => pty_eqb t u && go2 p' q'
+     | _, _ => false
+     end) l l = true.
+Proof. induction 1 as [|t l Ht _ IH]; [reflexivity|]. rewrite Ht, IH. reflexivity. Qed.
+
+Lemma pty_eqb_refl t : pty_eqb t t = true.
+Proof.
+  induction t as [l segs IH|els IH|el len IH|] using pty_ind'; cbn [pty_eqb].
+  - rewrite Bool.eqb_reflx. cbn [andb].
+    induction IH as [|[n aa] segs Haa _ IHs]; [reflexivity|].
+    unfold teq at 1. rewrite String.eqb_refl. cbn [andb snd] in *.
+    rewrite (pty_list_eqb_refl aa Haa). cbn [andb]. exact IHs.
+  - apply pty_list_eqb_refl. exact IH.
+  - rewrite IH. unfold teq. rewrite String.eqb_refl. reflexivity.
+  - reflexivity.
+Qed.
+
+Lemma tokens_eqb_refl t : tokens_eqb t t = true.
+Proof. apply list_eqb_refl. apply String.eqb_refl. Qed.
+
+Lemma pfields_eqb_refl l : pfields_eqb l l = true.
+Proof.
+  induction l as [|x l IH]; [reflexivity|]. cbn [pfields_eqb].
+  rewrite (list_eqb_refl tokens_eqb tokens_eqb_refl), Bool.eqb_reflx, pty_eqb_refl, IH.
+  destruct (pf_name x); cbn [option_eqb]; rewrite ?String.eqb_refl; reflexivity.
+Qed.
+
+Lemma pbody_eqb_refl b : pbody_eqb b b = true.
+Proof. destruct b; cbn [pbody_eqb]; [reflexivity|apply pfields_eqb_refl|apply pfields_eqb_refl]. Qed.
+
+Lemma pitem_eqb_refl i : pitem_eqb i i = true.
+Proof.
+  unfold pitem_eqb.
+  rewrite (list_eqb_refl tokens_eqb tokens_eqb_refl), Bool.eqb_reflx, String.eqb_refl,
+    (list_eqb_refl String.eqb String.eqb_refl), pbody_eqb_refl. cbn [andb].
+  apply list_eqb_refl. intros v.
+  rewrite (list_eqb_refl tokens_eqb tokens_eqb_refl), String.eqb_refl, pbody_eqb_refl. reflexivity.
+Qed.
+
+Lemma combine_seq_nth {A} (l : list A) : forall start k x,
+  In (k, x) (combine (seq start (List.length l)) l) -> (start <= k)%nat /\ nth_error l (k - start) = Some x.
+Proof.
+  induction l as [|a l IH]; intros start k x H; [destruct H|].
+  cbn [List.length seq combine] in H. destruct H as [H|H].
+  - inversion H; subst. split; [lia|]. rewrite Nat.sub_diag. reflexivity.
+  - destruct (IH _ _ _ H) as [Hle Hn]. split; [lia|].
+    replace (k - start)%nat with (S (k - S start)) by lia. exact Hn.
+Qed.
+
+(** when the observed tokens are the model's tokens, the checker accepts (every definition all of
+    whose interned instantiations are coincidence-free is found at its path, and its stripped item
+    is the checker's [expected_of]) *)
+Theorem prop_source_roundtrip_of_model (c : c05_case) (otp : bool -> tpath) teq m toks :
+  let defs := pg_defs (c5_prog c) in
+  let r := tg_reg (c5_tg c) in
+  let s := settings_of (tg_spec (c5_tg c)) in
+  let L := label_at (c5_labels c) in
+  RegistryOf defs L r ->
+  (forall sd, In sd defs -> def_okb s sd = true) ->
+  prelude_okb s = true -> order_resolves s otp -> render_okb s defs = true ->
+  (forall lsb, tpath_pty (ProgramSkel.alloc_segs s) (otp lsb) = bits_order_pty lsb) ->
+  (forall d1 d2 sd1 sd2,
+     nth_error defs d1 = Some sd1 -> nth_error defs d2 = Some sd2 -> sd_path sd1 = sd_path sd2 -> d1 = d2) ->
+  (forall k sd, nth_error defs k = Some sd -> cf_def c k sd = true ->
+     forallb (fun f => no_cow_cow (sf_ty f)) (def_sfields sd) = true /\ box_names_okb defs sd = true /\
+     forallb (fun f => apps_okb defs (sf_ty f) && field_conv_okb f) (def_sfields sd) = true /\
+     (forall lsb, sd_path sd <> order_path_of lsb) /\
+     (exists id args, L id = Some (SApp k args)) /\
+     (forall id args, L id = Some (SApp k args) ->
+        In args (insts_of c k) /\ map canon args = args /\ compact_fields_okb defs sd args = true)) ->
+  generate r s teq = Ok m -> emit_module s m = Ok toks -> items_plain s m = true ->
+  tg_gen (c5_tg c) = OOk toks ->
+  prop_source_roundtrip c = true.
+Proof.
+  intros defs r s L HR Hdefs Hprel Hord Hrender Hbits Hpaths Hper Hgen Hemit Hplain Hobs.
+  unfold prop_source_roundtrip. rewrite Hobs.
+  pose proof (emit_parses s m toks Hemit Hplain) as Hparse. fold s in Hparse. rewrite Hparse.
+  apply forallb_forall. intros [k sd] Hin. cbn [fst snd].
+  destruct (cf_def c k sd) eqn:Ecf; [|reflexivity].
+  unfold defs_indexed in Hin. apply combine_seq_nth in Hin as [_ Hnth]. rewrite Nat.sub_0_r in Hnth.
+  destruct (Hper k sd Hnth Ecf) as (Hfrag & Hbox & Hconv & Hnom & (id & args & Hl) & Hinst).
+  assert (Hinst' : forall id0 args0, L id0 = Some (SApp k args0) ->
+            instantiation_cf defs sd args0 = true /\ map canon args0 = args0 /\ compact_fields_okb defs sd args0 = true).
+  { intros id0 args0 Hl0. destruct (Hinst id0 args0 Hl0) as (Hin0 & Hcan & Hco).
+    split; [|split; assumption]. unfold cf_def in Ecf.
+    destruct (insts_of c k) as [|a l] eqn:Ei; [discriminate|].
+    rewrite forallb_forall in Ecf. apply Ecf. exact Hin0. }
+  destruct (source_roundtrip_module defs L r s otp HR Hdefs Hprel Hord Hrender Hpaths k sd Hnth Hfrag Hbox Hconv
+              Hnom Hinst' teq m Hgen id args toks Hl Hemit Hplain) as (pm & it & Hpm & Hlook & Hstrip).
+  rewrite Hparse in Hpm. inversion Hpm; subst pm. rewrite Hlook, Hstrip.
+  rewrite (expected_of_source_settings defs s otp sd Hbits). apply pitem_eqb_refl.
 Qed.
